@@ -5,6 +5,7 @@ package main
 
 import (
 	"fmt"
+	"os"
 	"go/constant"
 	"go/token"
 	"go/types"
@@ -56,8 +57,12 @@ type Exec struct {
 	rtIndex map[rtKey]*rtEntry
 	killPath *Term
 	prefers []*Term
+	traceEqs []*Term
+	nprint   int
 	conjMemo map[int32]map[int32]bool
 	everStubbed map[string]bool
+	nestedStubs map[string]*FuncV
+	active      map[string]int
 	prefQ   func(n int, cond *Term) *Query
 	tier string
 	backings map[string]*Object
@@ -185,6 +190,14 @@ func (x *Exec) callFunc(fn *ssa.Function, bind []Value, args []Value, g *Term, s
 		x.stubbed[name]++
 		return x.callFunc(st.Fn, st.Bind, args, g, site)
 	}
+	if st, ok := x.nestedStubs[name]; ok {
+		if x.active[name] > 0 {
+			x.stubbed[name+" (recursive calls: contract)"]++
+			return x.callFunc(st.Fn, st.Bind, args, g, site)
+		}
+		x.active[name]++
+		defer func() { x.active[name]-- }()
+	}
 	if r, died, ok := x.intrinsic(fn, name, args, g, site); ok {
 		return r, died
 	}
@@ -274,6 +287,13 @@ func (x *Exec) orGuards(edges []Edge) *Term {
 	c := x.c
 	if len(edges) == 1 {
 		return edges[0].g
+	}
+	if os.Getenv("VX_NO_ORG") != "" {
+		g := c.False
+		for _, e := range edges {
+			g = c.Or(g, e.g)
+		}
+		return g
 	}
 	gs := make([]*Term, 0, len(edges))
 	for _, e := range edges {
@@ -581,6 +601,26 @@ func (x *Exec) runBlock(fr *Frame, b *ssa.BasicBlock) {
 			break
 		}
 	}
+	if tb := os.Getenv("VX_TRACE_BLOCK"); tb != "" && tb == fmt.Sprintf("%s:%d", fi.Fn.Name(), b.Index) {
+		for i, e := range edges {
+			fmt.Fprintf(os.Stderr, "EDGE %d pred=%d(b%d) g=%s\n", i, e.predPos, b.Preds[e.predPos].Index, x.c.Show(e.g, 3))
+			for pi, pv := range e.phi {
+				if t, ok := pv.(*Term); ok {
+					fmt.Fprintf(os.Stderr, "     phi%d = %s\n", pi, x.c.Show(t, 3))
+				}
+			}
+		}
+	}
+	if tb := os.Getenv("VX_TRACE_BLOCK"); tb != "" && tb == fmt.Sprintf("%s:%d", fi.Fn.Name(), b.Index) {
+		for i, e := range edges {
+			fmt.Fprintf(os.Stderr, "EDGE %d pred=%d(b%d) g=%s\n", i, e.predPos, b.Preds[e.predPos].Index, x.c.Show(e.g, 3))
+			for pi, pv := range e.phi {
+				if t, ok := pv.(*Term); ok {
+					fmt.Fprintf(os.Stderr, "     phi%d = %s\n", pi, x.c.Show(t, 3))
+				}
+			}
+		}
+	}
 	for pi := 0; pi < nphi; pi++ {
 		var res Value
 		for i := len(edges) - 1; i >= 0; i-- {
@@ -591,7 +631,8 @@ func (x *Exec) runBlock(fr *Frame, b *ssa.BasicBlock) {
 				res = x.merge(edges[i].g, v, res)
 			}
 		}
-		fr.env[fi.ValIdx[b.Instrs[pi].(*ssa.Phi)]] = res
+		fr.cur = g
+		x.setVal(fr, b.Instrs[pi].(*ssa.Phi), res)
 	}
 	fr.cur = g
 	for _, in := range b.Instrs[nphi:] {
@@ -728,8 +769,29 @@ func (x *Exec) term(fr *Frame, v ssa.Value) *Term {
 	return t
 }
 
+var traceSSA = func() map[string]bool {
+	m := map[string]bool{}
+	for _, n := range strings.Split(os.Getenv("VX_TRACE_SSA"), ",") {
+		if n != "" {
+			m[n] = true
+		}
+	}
+	return m
+}()
+
 func (x *Exec) setVal(fr *Frame, v ssa.Value, val Value) {
 	fr.env[fr.fi.ValIdx[v]] = val
+	cm := ""
+	if ph, ok := v.(*ssa.Phi); ok {
+		cm = ph.Comment
+	}
+	if len(traceSSA) > 0 && (traceSSA[fr.fi.Fn.Name()+":"+v.Name()] || (cm != "" && traceSSA[fr.fi.Fn.Name()+":#"+cm])) {
+		if t, ok := val.(*Term); ok && t.Sort.K != SFP {
+			x.nprint++
+			nm := fmt.Sprintf("trace.%03d.%s.%s.b%d", x.nprint, v.Name(), cm, v.(ssa.Instruction).Block().Index)
+			x.traceEqs = append(x.traceEqs, x.c.And(x.c.Eq(x.c.Var(nm, t.Sort), t), x.c.Eq(x.c.Var(nm+".reached", BoolSort), fr.cur)))
+		}
+	}
 }
 
 func (x *Exec) globalObj(g *ssa.Global) *Object {
@@ -1198,7 +1260,7 @@ func (x *Exec) conjuncts(g *Term) map[int32]bool {
 // restrictValue simplifies a value read under guard g: ite(c, a, b) with c (or ¬c) a conjunct of g
 // is a (or b). Values written under a guard and read back under the same guard lose their ite.
 func (x *Exec) restrictValue(v Value, g *Term) Value {
-	if g.IsTrue() {
+	if g.IsTrue() || os.Getenv("VX_NO_RESTRICT") != "" {
 		return v
 	}
 	t, ok := v.(*Term)
@@ -1926,8 +1988,32 @@ func (x *Exec) appendOp(cc *ssa.CallCommon, args []Value, g *Term, pos token.Pos
 		if a.Base == nil {
 			return s
 		}
-		if !a.Len.IsConst() || !a.Off.IsConst() {
-			x.fail("append: appended slice with symbolic length")
+		if !a.Off.IsConst() {
+			x.fail("append: appended slice with symbolic offset")
+		}
+		if !a.Len.IsConst() {
+			// symbolic number of appended elements: bounded by the source's backing array; element i
+			// is written under the guard i < len(src)
+			arr, ok := x.force(x.load(a.Base)).(*ArrayV)
+			if !ok || s.Base == nil {
+				x.fail("append: appended slice with symbolic length needs small array backings")
+			}
+			maxN := len(arr.E) - int(a.Off.K)
+			newLen := c.Add(s.Len, a.Len)
+			fits := c.Ule(newLen, s.Cap)
+			if !fits.IsTrue() {
+				x.addOblig("append", "append-exceeds-capacity@"+x.posStr(pos), c.And(g, c.Not(fits)), pos)
+			}
+			for i := 0; i < maxN; i++ {
+				gi := c.And(g, c.Ult(c.Const(64, uint64(i)), a.Len))
+				if gi.IsFalse() {
+					break
+				}
+				src := x.load(x.ptrExtend(a.Base, PathElem{Field: -1, Idx: c.Const(64, a.Off.K+uint64(i))}))
+				p := x.ptrExtend(s.Base, PathElem{Field: -1, Idx: c.Add(c.Add(s.Off, s.Len), c.Const(64, uint64(i)))})
+				x.store(p, src, gi)
+			}
+			return &SliceV{Base: s.Base, Off: s.Off, Len: newLen, Cap: s.Cap}
 		}
 		nAdd = int(a.Len.K)
 		addLen = a.Len
